@@ -236,7 +236,8 @@ def api_built(loaded, Program, twin=False):
         if twin:
             p.add_command(cls, nm, OrderedDict(args), lineno)
         else:
-            p.add_command(cls, nm, OrderedDict((k, objects(v, p) if k[0] in "DLN" and k != "Null" else v) for k, v in args), lineno)
+            # (no line numbers: programs assembled through the API usually have none)
+            p.add_command(cls, nm, OrderedDict((k, objects(v, p) if k[0] in "DLN" and k != "Null" else v) for k, v in args))
     return p
 
 
